@@ -18,7 +18,7 @@ SPEC = {
     "race": True,
     "theorems": ["C06_cache_coherent", "C06_transparent", "C06_stored_is_last_written", "C06_failure_atomic",
                  "C06_store_transparent", "C06_store_failure_atomic", "C06_store_iterate_stops_at_first_decode_error",
-                 "C06_store_set_get", "C06_store_stored_is_last_written", "C06_fault_reported", "C06_old_compute_witness",
+                 "C06_store_set_get", "C06_store_stored_is_last_written", "C06_stored_is_last_written_aliasing", "C06_fault_reported", "C06_old_compute_witness",
                  "C06_serialised", "C06_serialised_coherent", "C06_serialised_readers", "C06_serialised_counter",
                  "C06_skeleton_get", "C06_skeleton_has", "C06_skeleton_compute", "C06_skeleton_set", "C06_skeleton_delete",
                  "C06_skeleton_store_get", "C06_skeleton_store_has", "C06_skeleton_store_set", "C06_skeleton_store_delete",
@@ -27,6 +27,7 @@ SPEC = {
                      "tied by differential execution with fault injection (harness/c06)",
                      "Go toolchain, compiled Lean driver, Go's sync.RWMutex semantics as written in Hive/Model/TypedConc.lean"],
     "modelled": ["TypedValue Get/Has/Set/Delete/Compute over one raw key with both cache fields, per-call fault vector, call trace",
+                 "reference-typed V (TypedValue[*T]): generic model at V := Ref with a heap-dependent codec (Hive/Model/TypedRef.lean); caller mutations change the heap only; cache coherence / transparency are claimed only while the caller has not mutated a cached object (aliasing assumption), last-written and failure atomicity always",
                  "TypedStore Get/Has/Set/Delete/Iterate over a sorted association list; IterateKeys/DeletePrefix/Clear are pass-throughs and not modelled",
                  "protocol: RLock fast path / Lock slow path with read, store-write and cache-update micro-steps; RLock without writer preference (more schedules)",
                  "uint64 wrap-around of the counter workload after 2^64 increments is NOT modelled (Nat)",
@@ -37,5 +38,6 @@ SPEC = {
         "technique": "Lean 4 invariant/refinement proofs over histories x fault vectors + interleaving-protocol invariant + differential correspondence with fault injection",
     },
     "assumptions": ["the TypedValue is the only writer of its key (the cache is never invalidated from outside)",
-                    "codec round trip (dec (enc v) = v) for the theorems that say so"],
+                    "codec round trip (dec (enc v) = v) for the theorems that say so",
+                    "C06_cache_coherent / C06_transparent: values are immutable (the caller does not mutate an object held by the cache); C06_stored_is_last_written_aliasing and C06_failure_atomic do not need this"],
 }
